@@ -747,7 +747,7 @@ func main() {
 			if env.Tier == "thorough" {
 				return 0
 			}
-			return 230
+			return 200
 		},
 		Expand: func(env *fw.Env, src string, raw json.RawMessage) []json.RawMessage {
 			var g struct {
